@@ -1080,6 +1080,31 @@ psBool_t tls13ServerFoundSupportedPsk(ssl_t *ssl,
     return PS_TRUE;
 }
 
+/* A ticket is not valid beyond its ticket_lifetime (RFC 8446, 4.6.1): an
+   expired resumption PSK is treated as unknown, which leads to a full
+   handshake.  A negative age means that the clock went backwards or that
+   the difference overflowed; treat that as expired, too. */
+static psBool_t tls13ResumptionPskExpired(ssl_t *ssl, psTls13Psk_t *psk)
+{
+    psTime_t now;
+    int32 ageMsecs;
+
+    if (!psk->isResumptionPsk || psk->params == NULL ||
+        psk->params->ticketLifetime == 0)
+    {
+        return PS_FALSE;
+    }
+    psGetTime(&now, ssl->userPtr);
+    ageMsecs = psDiffMsecs(psk->params->timestamp, now, ssl->userPtr);
+    if (ageMsecs < 0 ||
+        (uint32_t) (ageMsecs / 1000) > psk->params->ticketLifetime)
+    {
+        psTraceInfo("Ignoring an expired session ticket\n");
+        return PS_TRUE;
+    }
+    return PS_FALSE;
+}
+
 int32_t tls13ParsePreSharedKey(ssl_t *ssl,
         psParseBuf_t *pb)
 {
@@ -1184,6 +1209,7 @@ int32_t tls13ParsePreSharedKey(ssl_t *ssl,
                         idBuf.buf.start, identityLen,
                         &psk);
                 if (rc == PS_SUCCESS && psk != NULL &&
+                    !tls13ResumptionPskExpired(ssl, psk) &&
                     tls13GetPskHmacAlg(psk) ==
                         tls13CipherIdToHmacAlg(ssl->cipher->ident))
                 {
